@@ -833,6 +833,8 @@ def impl(line):
     op, tk = _args(line)
     if op == 'mk':
         return s_coll(build_coll(p_coll(tk)).geoshapes)
+    if op == 'hist':
+        return hist_adapter(tk)
     if op == 'shpw':
         incl = p_incl(tk)
         return show_files_w(record_shp_write(build_coll(p_coll(tk)), incl))
@@ -1378,6 +1380,8 @@ def impl_np(line):
     op, tk = _args(line)
     if op.startswith('e2e-'):
         return e2e(op[4:], p_coll(tk))
+    if op.startswith('hist-'):
+        return hist_np(op, tk, True)
     if op == 'contract-shp':
         incl = p_incl(tk)
         return show_files_r(real_shp_channel(record_shp_write(build_coll(p_coll(tk)), incl)))
@@ -1401,6 +1405,11 @@ def spec_np(line):
     op, tk = _args(line)
     if op.startswith('e2e-'):
         return 'OK'
+    if op.startswith('hist-'):
+        try:
+            return hist_np(op, tk, False)
+        except Exception as e:  # noqa
+            return common.err_name(e)
     if op == 'contract-shp':
         incl = p_incl(tk)
         return show_files_r(contract_shp(record_shp_write(build_coll(p_coll(tk)), incl)))
@@ -1431,12 +1440,330 @@ def impl_for(line):
     op = line.split(' ', 1)[0].split('.', 1)[1]
     if op.startswith('e2e-'):
         return impl_replay_e2e
-    return impl if op in ('mk', 'shpw', 'shpr', 'gpdw', 'gpdr', 'kmlw', 'kmlr') else impl_np
+    return impl if op in ('mk', 'hist', 'shpw', 'shpr', 'gpdw', 'gpdr', 'kmlw', 'kmlr') else impl_np
 
 
 def spec_for(line):
     op = line.split(' ', 1)[0].split('.', 1)[1]
-    return spec_np if op.startswith(('e2e-', 'contract-')) else None
+    return spec_np if op.startswith(('e2e-', 'contract-', 'hist-')) else None
+
+
+# ==================================================================================================
+# histories: export / observe, update in place, export again.  Every export must reflect the CURRENT state of
+# the collection and its members (no stale cached view), and an artefact exported earlier must not change.
+# ==================================================================================================
+
+def p_ops(tk):
+    """history steps: D<i> dt (set_dt) | N<i> dt (shape.dt = …) | X<i> (strip_dt) | B<i> µs (buffer_dt) |
+    P<i> key val (set_property) | A shape (append) | R<i> shape (replace) | M<i> (remove) | O<what> (observe)"""
+    ops = []
+    for _ in range(tk.nat()):
+        t = tk.next()
+        c, r = t[0], t[1:]
+        if c in 'DN':
+            ops.append((c, int(r), p_dt(tk.next())))
+        elif c == 'X':
+            ops.append(('X', int(r)))
+        elif c == 'B':
+            ops.append(('B', int(r), int(tk.next())))
+        elif c == 'P':
+            ktok, vtok = tk.next(), tk.next()
+            ops.append(('P', int(r), p_key(ktok), vtok))
+        elif c == 'A':
+            ops.append(('A', p_shape(tk)))
+        elif c == 'R':
+            ops.append(('R', int(r), p_shape(tk)))
+        elif c == 'M':
+            ops.append(('M', int(r)))
+        elif c == 'O':
+            ops.append(('O', r))
+        else:
+            raise ValueError('bad history step ' + t)
+    return ops
+
+
+def build_coll_cls(cls, recs):
+    from geostructures.collections import FeatureCollection, Track
+    return (Track if cls == 'T' else FeatureCollection)([build_shape(r) for r in recs])
+
+
+def observe(coll, what):
+    """reads that must not influence any later export"""
+    shapes = coll.geoshapes
+    if what == 'props':
+        return [s.properties for s in shapes]
+    if what == 'geojson':
+        return coll.to_geojson()
+    if what == 'hash':
+        return [hash(s) for s in shapes]
+    if what == 'bounds':
+        return [s.bounds for s in shapes] + ([coll.bounds] if shapes else [])
+    if what == 'wkt':
+        return [s.to_wkt() for s in shapes]
+    if what == 'shapely':
+        return [s.to_shapely() for s in shapes]
+    if what == 'copy':
+        return [s.copy() for s in shapes] + [coll.copy()]
+    raise ValueError('bad observation ' + what)
+
+
+def apply_op_real(coll, op, export):
+    """one history step on the live objects; `export(fmt)` performs an export of that kind"""
+    from geostructures.time import TimeInterval
+    c = op[0]
+    shapes = coll.geoshapes
+    if c == 'D':
+        shapes[op[1]].set_dt(_dtobj(op[2]))
+    elif c == 'N':
+        dt = op[2]
+        shapes[op[1]].dt = None if dt is None else TimeInterval(mkdt(dt[0], dt[2]), mkdt(dt[1], dt[2]))
+    elif c == 'X':
+        shapes[op[1]].strip_dt()
+    elif c == 'B':
+        shapes[op[1]].buffer_dt(timedelta(microseconds=op[2]))
+    elif c == 'P':
+        shapes[op[1]].set_property(op[2], p_val(op[3]))
+    elif c == 'A':
+        shapes.append(build_shape(op[1]))
+    elif c == 'R':
+        shapes[op[1]] = build_shape(op[2])
+    elif c == 'M':
+        del shapes[op[1]]
+    elif c == 'O':
+        if op[1] in ('shp', 'gpd', 'kml'):
+            export(op[1])
+        else:
+            observe(coll, op[1])
+
+
+def apply_op_recs(recs, op):
+    """the same step on the records (what the state IS afterwards); raises like the implementation must"""
+    c = op[0]
+    if c in 'DN':
+        recs[op[1]]['dt'] = op[2]
+    elif c == 'X':
+        recs[op[1]]['dt'] = None
+    elif c == 'B':
+        dt = recs[op[1]]['dt']
+        if dt is None or dt[1] + op[2] < dt[0] - op[2]:
+            raise ValueError('buffer_dt')
+        recs[op[1]]['dt'] = (dt[0] - op[2], dt[1] + op[2], dt[2])
+    elif c == 'P':
+        props = recs[op[1]]['props']
+        for j, (k, _v) in enumerate(props):
+            if k == op[2]:
+                props[j] = (k, op[3])
+                break
+        else:
+            props.append((op[2], op[3]))
+    elif c == 'A':
+        recs.append(op[1])
+    elif c == 'R':
+        recs[op[1]] = op[2]
+    elif c == 'M':
+        del recs[op[1]]
+
+
+def hist_adapter(tk):
+    """model-tied: the three writers against the recording stand-ins, after a history of reads and updates"""
+    cls, fmt = tk.next(), tk.next()
+    ops = p_ops(tk)
+    coll = build_coll_cls(cls, p_coll(tk))
+    taken = []
+
+    def export(kind):
+        if kind == 'shp':
+            art = record_shp_write(coll, None)
+            show = show_files_w
+        elif kind == 'gpd':
+            art = record_gpd_write(coll, None)
+            show = show_frame_w
+        else:
+            with fake_modules(_fake_fastkml()):
+                art = coll.to_fastkml_folder('fold')
+            # the fake placemark keeps the shape object as its geometry: freeze what a real artefact would hold
+            for pm in art.features:
+                pm.geometry = GeoObj(pm.geometry.__geo_interface__)
+            show = show_node
+        taken.append((kind, art, show, show(art)))
+        return art
+    for op in ops:
+        apply_op_real(coll, op, export)
+    export(fmt)
+    for kind, art, show, before in taken:
+        if show(art) != before:
+            return f'RETRO:{kind} an artefact exported earlier changed afterwards'
+    return taken[-1][3]
+
+
+def real_export(coll, fmt, tmp, n):
+    from zipfile import ZipFile
+    if fmt == 'shp':
+        zp = os.path.join(tmp, f'c{n}.zip')
+        with ZipFile(zp, 'w') as z:
+            coll.to_shapefile(z)
+        return zp
+    if fmt == 'gpd':
+        return coll.to_geopandas()
+    return coll.to_fastkml_folder('fold')
+
+
+def real_import(cls, fmt, art):
+    from geostructures.collections import FeatureCollection, Track
+    c = Track if cls == 'T' else FeatureCollection
+    if fmt == 'shp':
+        return c.from_shapefile(art)
+    if fmt == 'gpd':
+        return c.from_geopandas(art)
+    return c.from_fastkml_folder(art)
+
+
+def hist_real(cls, fmt, ops, recs, live):
+    """np-hist: `live` = one collection carried through the whole history; otherwise every export is made from a
+    collection built afresh from the state at that moment (the reference: a fresh collection exported once)"""
+    tmp = tempfile.mkdtemp(prefix='c20-')
+    try:
+        arts = []
+        if live:
+            coll = build_coll_cls(cls, recs)
+
+            def export(kind):
+                a = real_export(coll, kind, tmp, len(arts))
+                arts.append((kind, a))
+            for op in ops:
+                apply_op_real(coll, op, export)
+            export(fmt)
+        else:
+            recs = [dict(r, props=list(r['props'])) for r in recs]
+            for op in ops + [('O', fmt)]:
+                if op[0] == 'O' and op[1] in ('shp', 'gpd', 'kml'):
+                    arts.append((op[1], real_export(build_coll_cls(cls, recs), op[1], tmp, len(arts))))
+                else:
+                    if op[0] == 'P':
+                        op = ('P', op[1], op[2], p_val(op[3]))     # parsed records hold values, not tokens
+                    apply_op_recs(recs, op)
+        # import only now: the earlier artefacts must still say what was true when they were made
+        return ' || '.join(f'{k}: ' + s_coll(real_import(cls, k, a).geoshapes) for k, a in arts)
+    finally:
+        shutil.rmtree(tmp, ignore_errors=True)
+
+
+def hist_np(op, tk, live):
+    cls = tk.next()
+    ops = p_ops(tk)
+    return hist_real(cls, op[5:], ops, p_coll(tk), live)
+
+
+def gen_hist(g, fmt, real):
+    """(line, tags): a collection (FeatureCollection or Track), reads / exports, in-place updates, final export"""
+    r = g.rng
+    cls = 'T' if r.random() < 0.3 else 'F'
+    kml = real and fmt == 'kml'
+    schema = g.schema('s' if kml else 'sifb')
+    zmode = r.random() < 0.3
+    n = r.randrange(1, 5)
+    slot = 10**10
+
+    def slot_dt(j):
+        a = BASE_US + j * slot + r.randrange(0, 10**9)
+        rep = r.choice(['', '', '@n', '@o60'])
+        return (a, a, rep) if r.random() < 0.4 else (a, a + r.randrange(1, 10**9), rep)
+
+    def new_shape(j):
+        rec = g.shape(r.choice(BASIC), zmode, False, schema, 0.0, kml)
+        if cls == 'T':
+            rec['dt'] = slot_dt(j)
+        return rec
+    recs = [new_shape(j) for j in range(n)]
+    state = [dict(x, props=list(x['props'])) for x in recs]
+    slots = list(range(n))                  # Track: member i lives in time slot slots[i] (keeps the order stable)
+    nxt = n
+    ops, tags, abort = [], [], [False]
+
+    def obs():
+        w = r.choice([fmt, fmt, 'props', 'geojson', 'hash', 'bounds', 'wkt', 'shapely', 'copy', 'shp', 'gpd', 'kml'])
+        if w == 'kml' and not all(v.startswith('s') and v != 's' for x in state for _k, v in x['props']) and real:
+            w = 'props'
+        if w == 'shapely' and any(x['kind'] == 'xx' for x in state):
+            w = 'props'
+        tags.append('observe:' + ('export' if w in ('shp', 'gpd', 'kml') else w))
+        return f'O{w}'
+
+    def mut():
+        nonlocal nxt
+        c = r.random()
+        if not state or c < 0.12:
+            rec = new_shape(nxt)
+            slots.append(nxt)
+            nxt += 1
+            state.append(rec)
+            tags.append('append')
+            return 'A ' + t_shape(rec)
+        i = r.randrange(len(state))
+        if c < 0.20:
+            rec = new_shape(slots[i])
+            state[i] = rec
+            tags.append('replace')
+            return f'R{i} ' + t_shape(rec)
+        if c < 0.26 and len(state) > 1:
+            del state[i]
+            del slots[i]
+            tags.append('remove')
+            return f'M{i}'
+        if c < 0.50:
+            d = slot_dt(slots[i]) if cls == 'T' else g.dt()
+            if d is None and cls != 'T':
+                how = r.choice(['D', 'N', 'X'])
+            else:
+                d = d or slot_dt(slots[i])
+                how = r.choice(['D', 'D', 'N'])
+            state[i]['dt'] = None if how == 'X' else d
+            tags.append({'D': 'set_dt', 'N': 'assign-dt', 'X': 'strip_dt'}[how] + (':none' if d is None or how == 'X' else ':instant' if d[0] == d[1] else ':interval'))
+            return f'X{i}' if how == 'X' else f'{how}{i} {t_dt(d)}'
+        if c < 0.65:
+            b = r.choice([0, 1, 10**6, r.randrange(0, 10**8)])
+            if state[i]['dt'] is None:
+                if r.random() < 0.7:
+                    return mut()
+                tags.append('buffer_dt:no-dt-raises')
+                abort[0] = True                  # both sides answer ERR:Value; nothing after this step matters
+                return f'B{i} {b}'
+            tags.append('buffer_dt:zero' if b == 0 else 'buffer_dt')
+            apply_op_recs(state, ('B', i, b))
+            return f'B{i} {b}'
+        # set_property: overwrite (same type), new key (type joins the schema), falsy values, None on a text key
+        typed = dict(schema)
+        have = [k for k, _v in state[i]['props']]
+        cc = r.random()
+        if have and cc < 0.45:
+            k = r.choice(have)
+            tags.append('set_property:overwrite')
+        elif cc < 0.8 or not have:
+            k = r.choice([x for x in KEYS if x not in have] or KEYS)
+            if k not in typed:
+                t = 's' if kml else r.choice('sifb')
+                schema.append((k, t))
+                typed[k] = t
+            tags.append('set_property:new' if k not in have else 'set_property:overwrite')
+        else:
+            k = r.choice(have)
+            tags.append('set_property:overwrite')
+        v = g.props([(k, typed[k])], 0.0, kml)[0][1]
+        if typed[k] == 's' and not kml and r.random() < 0.1:
+            v = 'n'
+            tags.append('set_property:none')
+        apply_op_recs(state, ('P', i, k, v))
+        return f'P{i} k{q(k)} {v}'
+    plan = ['o'] * r.randrange(1, 3) + ['m'] * r.randrange(1, 4)
+    if r.random() < 0.5:
+        plan += ['o'] + ['m'] * r.randrange(1, 3)
+    for step in plan:
+        if abort[0]:
+            break
+        ops.append(obs() if step == 'o' else mut())
+    tags.append('track' if cls == 'T' else 'featurecollection')
+    head = f'io.hist {cls} {fmt}' if not real else f'io.hist-{fmt} {cls}'
+    return ' '.join([head, str(len(ops))] + ops + ([t_coll(recs)] if recs else [])).rstrip(), tags
 
 
 # ==================================================================================================
@@ -1731,6 +2058,21 @@ def check(run):
             table[ln] = tg or ['plain']
         run.run_cases(f'adapter-{name}', lines, impl, None, tag=tags_of(table))
 
+    # ---- (i') histories: read / export, update in place, export again ----------------------------------------------
+    table, lines = {}, []
+    for _ in range(run.scale(240, 4500)):
+        ln, tgs = gen_hist(g, rng.choice(['shp', 'gpd', 'kml']), False)
+        lines.append(ln)
+        table[ln] = tgs
+    run.run_cases('adapter-hist', lines, impl, None, tag=tags_of(table))
+    for fmt in ('shp', 'gpd', 'kml'):
+        table, lines = {}, []
+        for _ in range(run.scale(60, 1200)):
+            ln, tgs = gen_hist(g, fmt, True)
+            lines.append(ln)
+            table[ln] = tgs
+        run.run_cases(f'np-hist-{fmt}', lines, impl_np, spec_np, model=False, tag=tags_of(table))
+
     # ---- (ii) contracts: Python contract == Lean ideal channel (chan-*), real library == contract -----
     n = run.scale(120, 2500)
     table, shp_lines, gpd_lines, kml_lines = {}, [], [], []
@@ -1793,7 +2135,10 @@ def check(run):
     run.note('sha1 over every generated protocol line of this run (same seed and tier => same digest, whatever '
              'PYTHONHASHSEED is): ' + digest.hexdigest())
     return run.finish(
-        rule='adapter streams: random collections (1-5 shapes of the six simple/multi kinds, 0-2 holes, any start '
+        rule='histories (adapter-hist model-tied, np-hist-* with the real libraries against a freshly built collection '
+             'exported once): reads and exports, then set_dt / shape.dt = / strip_dt / buffer_dt / set_property / append / '
+             'replace / remove on a FeatureCollection or Track, then the export again - every artefact imported at the end; '
+             'adapter streams: random collections (1-5 shapes of the six simple/multi kinds, 0-2 holes, any start '
              'vertex / direction / closure of the rings, {no dt, instant, interval} in UTC / naive / offset form, '
              'string/int/float/bool properties with a uniform type per key, optional Z and M, optional '
              'include_properties) through the three writers with the library replaced by a recorder, and channel '
